@@ -54,7 +54,17 @@ def scalar_arms(rep, be):
         except Unknown as e:
             v = convsem.Verdict(False, f"template could not be extracted: {e}")
         rep.ob("R14.2", f"{be}: {ins} is the canonical {direction} of {wit.lower()}", v.ok,
-               (f"`{tmpl.show()}`: " if v.ok else "") + v.detail if v.ok else v.detail, f.loc(mine[0].node))
+               f"`{tmpl.show()}`: {v.detail}" if v.ok else v.detail, f.loc(mine[0].node))
+    # nothing else in emit dispatches on a scalar instruction (an `if let Instruction::X = inst {..; return}` placed
+    # before the match would bypass the arm that R14.2 evaluates)
+    in_match = {id(n) for a in arms for n in synq.walk(a.pat)}
+    stray = []
+    for n in synq.walk(f.body):
+        nm = n.get("path") if n.get("k") in ("p_path", "p_tuple_struct", "p_struct") else n.get("name") if n.get("k") == "p_ident" else None
+        if nm and synq.short(nm) in SCALAR_INSTRUCTIONS and id(n) not in in_match:
+            stray.append((synq.short(nm), n))
+    rep.ob("R14.1", f"{be}: scalar instructions are dispatched only by the arms of emit's instruction match", not stray,
+           f"also matched at {[f'{nm} (line {synq.line(n)})' for nm, n in stray]}", f.loc(stray[0][1] if stray else m))
     rep.floor("R14.1", f"{be}: scalar instructions with an explicit arm", n_arm, 24)
     rep.floor("R14.2", f"{be}: templates evaluated by convsem", n_eval, 24)
 
